@@ -23,6 +23,8 @@ def gen_plan(seed, i, tier):
     ver = None
     if r < 55:
         init = {'sample': rng.choice(names)}
+        if 'OB' not in init['sample'] and rng.chance(0.2):
+            init['relabel'] = [rng.below(1000) for _ in range(rng.range(1, 3))]   # the reader lacks factories for some block types (F-SKEW): tables are kept, not rebuilt
     elif r < 80:
         ver = rng.choice(['OB', 'FO3', 'SK', 'SSE', 'FO4', 'FO76'])
         init = {'settle': rng.chance(0.3), 'builder': {'version': ver, 'salt': rng.below(1 << 30), 'nodes': rng.below(3),
